@@ -1068,10 +1068,11 @@ def depthL : List Ty → Nat
   | t :: ts => max (depth t) (depthL ts)
 end
 
-/-- `h` ranks the store: every variable inside the value of a key has (through its root) a smaller
-rank than that key.  A store has a ranking iff it is acyclic (`ranked_of_acyclic`, `acyclic_of_ranked`). -/
+/-- `h` ranks the store: every variable inside the value of a root key has (through its root) a
+smaller rank than that key.  A store has a ranking iff it is acyclic (`ranked_of_acyclic`,
+`acyclic_of_ranked`). -/
 def RankedBy (h : Nat → Nat) (σ : Store) : Prop :=
-  ∀ r t, σ.val r = some t → ∀ w, occursOk w t = false → h (σ.rep w) < h r
+  ∀ r t, σ.rep r = r → σ.val r = some t → ∀ w, occursOk w t = false → h (σ.rep w) < h r
 
 theorem occursOkL_cons_false {w t ts} : occursOkL w (t :: ts) = false ↔ occursOk w t = false ∨ occursOkL w ts = false := by
   cases h1 : occursOk w t <;> cases h2 : occursOkL w ts <;> simp [occursOkL, h1, h2]
@@ -1133,17 +1134,17 @@ end
 
 /-- a variable of rank below `K` normalises within `K * (D+1) + 1` steps, `D` bounding the depth of
 every stored value -/
-theorem ranked_var {σ : Store} {h : Nat → Nat} {D : Nat} (hR : RankedBy h σ)
+theorem ranked_var {σ : Store} {h : Nat → Nat} {D : Nat} (hW : WF σ) (hR : RankedBy h σ)
     (hD : ∀ r t, σ.val r = some t → depth t ≤ D) :
     ∀ K v, h (σ.rep v) < K → ∃ x, normF (K * (D+1) + 1) σ (.tvar v) = some x
   | 0, _, hv => by cases hv
   | K+1, v, hv => by
-    have IH := ranked_var hR hD K
+    have IH := ranked_var hW hR hD K
     cases hs : σ.val (σ.rep v) with
     | none => exact ⟨_, by rw [normF_tvar, hs]⟩
     | some s =>
       have hvars : ∀ w, occursOk w s = false → h (σ.rep w) < K := fun w hw => by
-        have := hR _ _ hs w hw; omega
+        have := hR _ _ (hW v) hs w hw; omega
       obtain ⟨x, hx⟩ := measT (B := K * (D+1)) IH s hvars
       have hd := hD _ _ hs
       refine ⟨x, ?_⟩
@@ -1153,14 +1154,98 @@ theorem ranked_var {σ : Store} {h : Nat → Nat} {D : Nat} (hR : RankedBy h σ)
 /-- **`norm` terminates within an explicit number of nested calls.**  On a store ranked by `h` with
 ranks below `H` and stored values of depth at most `D`, `norm t` returns using at most
 `depth t + H * (D+1) + 1` nested calls — so the real `norm` cannot overflow the stack on such a store. -/
-theorem norm_terminates {σ : Store} {h : Nat → Nat} {H D : Nat} (hR : RankedBy h σ)
+theorem norm_terminates {σ : Store} {h : Nat → Nat} {H D : Nat} (hW : WF σ) (hR : RankedBy h σ)
     (hH : ∀ v, h v < H) (hD : ∀ r t, σ.val r = some t → depth t ≤ D) :
     ∀ t, ∃ x, normF (depth t + H * (D+1) + 1) σ t = some x :=
-  fun t => measT (K := H) (ranked_var hR hD H) t (fun _ _ => hH _)
+  fun t => measT (K := H) (ranked_var hW hR hD H) t (fun _ _ => hH _)
 
-theorem acyclic_of_ranked {σ : Store} {h : Nat → Nat} {D : Nat} (hR : RankedBy h σ)
+theorem acyclic_of_ranked {σ : Store} {h : Nat → Nat} {D : Nat} (hW : WF σ) (hR : RankedBy h σ)
     (hD : ∀ r t, σ.val r = some t → depth t ≤ D) : Acyclic σ :=
-  fun v => let ⟨x, hx⟩ := ranked_var hR hD (h (σ.rep v) + 1) v (Nat.lt_succ_self _); ⟨_, x, hx⟩
+  fun v => let ⟨x, hx⟩ := ranked_var hW hR hD (h (σ.rep v) + 1) v (Nat.lt_succ_self _); ⟨_, x, hx⟩
+
+/-- a variable inside a type that normalises with fuel `f` normalises with fuel `f` itself -/
+theorem normF_var_inside {σ} : ∀ f t x w, normF f σ t = some x → occursOk w t = false → ∃ y, normF f σ (.tvar w) = some y
+  | 0, _, _, _, h, _ => by simp at h
+  | f+1, t, x, w, h, ho => by
+    have IH := normF_var_inside (σ := σ) f
+    have IHL : ∀ xs ys, mapO (normF f σ) xs = some ys → occursOkL w xs = false → ∃ y, normF (f+1) σ (.tvar w) = some y := by
+      intro xs ys hm hf
+      obtain ⟨t, ht, hto⟩ := occursOkL_false hf
+      have : ∃ z, normF f σ t = some z := by
+        clear hf hto
+        induction xs generalizing ys with
+        | nil => cases ht
+        | cons a as ih =>
+          obtain ⟨y, ys', h1, h2, _⟩ := mapO_cons_some.1 hm
+          rcases List.mem_cons.1 ht with rfl | ht
+          · exact ⟨y, h1⟩
+          · exact ih _ h2 ht
+      obtain ⟨z, hz⟩ := this
+      obtain ⟨y, hy⟩ := IH _ _ _ hz hto
+      exact ⟨y, normF_mono1 _ _ _ _ hy⟩
+    have up : ∀ u z, normF f σ u = some z → occursOk w u = false → ∃ y, normF (f+1) σ (.tvar w) = some y :=
+      fun u z hz hu => let ⟨y, hy⟩ := IH _ _ _ hz hu; ⟨y, normF_mono1 _ _ _ _ hy⟩
+    rcases normF_succ_cases h with ⟨v, u, rfl, hv, hu⟩ | ⟨v, rfl, hv, rfl⟩ | ⟨ts, ts', rfl, hm, rfl⟩ |
+      ⟨u, args, u', args', rfl, hu, hm, rfl⟩ | ⟨n, e, e', rfl, he, rfl⟩ | ⟨e, e', rfl, he, rfl⟩ |
+      ⟨e, e', rfl, he, rfl⟩ | ⟨ps, r, ps', r', rfl, hm, hr, rfl⟩ | ⟨hl, rfl⟩
+    · simp [occursOk] at ho; subst ho; exact ⟨_, h⟩
+    · simp [occursOk] at ho; subst ho; exact ⟨_, h⟩
+    · simp only [occursOk] at ho; exact IHL _ _ hm ho
+    · simp only [occursOk, Bool.and_eq_false_iff] at ho
+      rcases ho with ho | ho
+      · exact up _ _ hu ho
+      · exact IHL _ _ hm ho
+    · simp only [occursOk] at ho; exact up _ _ he ho
+    · simp only [occursOk] at ho; exact up _ _ he ho
+    · simp only [occursOk] at ho; exact up _ _ he ho
+    · simp only [occursOk, Bool.and_eq_false_iff] at ho
+      rcases ho with ho | ho
+      · exact IHL _ _ hm ho
+      · exact up _ _ hr ho
+    · rw [occursOk_leaf hl] at ho; cases ho
+
+theorem exists_least {p : Nat → Prop} (h : ∃ n, p n) : ∃ n, p n ∧ ∀ m, m < n → ¬ p m := by
+  obtain ⟨n, hn⟩ := h
+  induction n using Nat.strongRecOn with
+  | _ n ih =>
+    by_cases hex : ∃ m, m < n ∧ p m
+    · obtain ⟨m, hm, hpm⟩ := hex
+      exact ih m hm hpm
+    · exact ⟨n, hn, fun m hm hpm => hex ⟨m, hm, hpm⟩⟩
+
+/-- `norm ?v` and `norm ?(find v)` take the same number of calls -/
+theorem normF_tvar_rep {σ} (hW : WF σ) (f v) : normF f σ (.tvar (σ.rep v)) = normF f σ (.tvar v) := by
+  cases f with
+  | zero => simp
+  | succ f => rw [normF_tvar, normF_tvar, hW v]
+
+/-- an acyclic store has a ranking: the number of nested calls `norm ?v` takes -/
+theorem ranked_of_acyclic {σ} (hW : WF σ) (hA : Acyclic σ) : ∃ h, RankedBy h σ := by
+  have L : ∀ v, ∃ n, (∃ x, normF n σ (.tvar v) = some x) ∧ ∀ m, m < n → ¬ ∃ x, normF m σ (.tvar v) = some x :=
+    fun v => exists_least (let ⟨f, t, h⟩ := hA v; ⟨f, t, h⟩)
+  refine ⟨fun v => Classical.choose (L v), fun r t hr hv w hw => ?_⟩
+  show Classical.choose (L (σ.rep w)) < Classical.choose (L r)
+  obtain ⟨⟨x, hx⟩, _⟩ := Classical.choose_spec (L r)
+  obtain ⟨_, hmin⟩ := Classical.choose_spec (L (σ.rep w))
+  generalize Classical.choose (L r) = n at hx ⊢
+  generalize Classical.choose (L (σ.rep w)) = k at hmin ⊢
+  cases n with
+  | zero => simp at hx
+  | succ n =>
+    rw [normF_tvar, hr, hv] at hx
+    obtain ⟨y, hy⟩ := normF_var_inside n t x w hx hw
+    rw [← normF_tvar_rep hW] at hy
+    by_cases hk : k < n + 1
+    · exact hk
+    · exact absurd ⟨y, hy⟩ (hmin n (by omega))
+
+/-- **`norm` on an acyclic store**: a ranking exists, and any bounds `H` on the ranks and `D` on the
+depth of stored values give the explicit bound `depth t + H * (D+1) + 1` on the nesting of calls. -/
+theorem norm_terminates_acyclic {σ} (hW : WF σ) (hA : Acyclic σ) :
+    ∃ h, RankedBy h σ ∧ ∀ H D, (∀ v, h v < H) → (∀ r t, σ.val r = some t → depth t ≤ D) →
+      ∀ t, ∃ x, normF (depth t + H * (D+1) + 1) σ t = some x := by
+  obtain ⟨h, hR⟩ := ranked_of_acyclic hW hA
+  exact ⟨h, hR, fun _ _ hH hD => norm_terminates hW hR hH hD⟩
 
 /-! ### the stores the typer can reach -/
 
@@ -1391,6 +1476,26 @@ example : (unifyF 9 s3 (.dyn "A") (.dyn "B")).map (·.1) = some (some .dynName) 
 /-- the pass goes on after a failing constraint and reports the failures in order -/
 example : (solveEqs 9 s3 [(.tvar 0, .bool), (.tvar 0, .string), (.tvar 1, .vec (.tvar 0)), (.tvar 1, .vec .unit)]).map (·.1)
     = some [.notEqual, .notEqual] := by decide
+
+/-- the hypotheses of `norm_terminates` on a concrete store: `?0 ↦ Vec[?1]`, ranks 1 and 0 -/
+example : RankedBy (fun v => if v = 0 then 1 else 0) (s3.bind 0 (.vec (.tvar 1))) ∧
+    (∀ v, (fun v => if v = 0 then 1 else 0) v < 2) ∧
+    (∀ r t, (s3.bind 0 (.vec (.tvar 1))).val r = some t → depth t ≤ 1) := by
+  refine ⟨?_, ?_, ?_⟩
+  · intro r t _ hv w hw
+    simp only [Store.bind, upd, s3, Store.fresh, Store.empty] at hv
+    split at hv
+    · rename_i hr0; subst hr0
+      cases hv
+      simp [occursOk] at hw; subst hw
+      simp [Store.bind, s3, Store.fresh, Store.empty]
+    · cases hv
+  · intro v; simp only; split <;> omega
+  · intro r t hv
+    simp only [Store.bind, upd, s3, Store.fresh, Store.empty] at hv
+    split at hv
+    · cases hv; simp [depth]
+    · cases hv
 
 end Examples
 
